@@ -154,8 +154,14 @@ class wind(PseudoNetCDFFile):
         self.rffile.next()
         nlayers = 0
         while not self.rffile.record_size == self.time_hdr_size:
-            self.rffile.next()
             nlayers += 1
+            if not self.rffile.next():
+                # end of file: a single time step (next() does not move)
+                self.nlayers = (nlayers - 1) // 2
+                self.end_time, self.end_date = self.start_time, self.start_date
+                self.time_step = 100.
+                self.time_step_count = 1
+                return
 
         self.nlayers = (nlayers - 1) // 2
 
